@@ -537,6 +537,22 @@ def check_partitioned_rate(res, rng):
     if abs((got_bp * rates).sum() - 1) > 1e-9 or rates.min() < 0:
         res.witness("C05/bin-rates-do-not-average-to-one/partitioned-rate-without-distribution", bprobs=got_bp, rates=rates, replay_case=rc)
     res.sig("partitioned-rate", nb)
+    # the ordered 'free' (monotonic) rate distribution with the same unequal bin probabilities
+    rc2 = {"kind": "one-freerate", "bins": bins, "bprobs": bp.tolist()}
+    try:
+        sm2 = TimeReversibleNucleotide(predicates=["kappa"], ordered_param="rate", distribution="free")
+        lf2 = sm2.make_likelihood_function(make_tree("(a:0.2,b:0.2,c:0.2)"), bins=bins)
+        lf2.set_param_rule("bprobs", init=bp)
+        got_bp2 = np.array(lf2.get_param_value("bprobs"), dtype=float)
+        rates2 = np.array([lf2.get_param_value("rate", bin=b) for b in bins], dtype=float)
+    except Exception as ex:  # noqa: BLE001
+        res.evals += 1
+        res.witness(exc_mechanism("C05/free-rate-distribution/build-or-read", ex), replay_case=rc2)
+        return
+    res.evals += 1
+    res.count("free-rate-distribution-checked")
+    if abs((got_bp2 * rates2).sum() - 1) > 1e-9 or rates2.min() < 0 or (np.diff(rates2) < -1e-12).any():
+        res.witness("C05/bin-rates-do-not-average-to-one/free-distribution", bprobs=got_bp2, rates=rates2, replay_case=rc2)
 
 
 # ---------------------------------------------------------------------------
@@ -721,5 +737,5 @@ def gen_userpred(rng):
 
 
 def required(counters, tier):
-    need = ["GS:accepted", "GS:refused", "partitioned-rate-checked", "unaligned-route-checked", "uncalibrated-table:user-names", "uncalibrated-table:default-names:11+bins", "user-predicate-models-checked", "user-predicate-orderings-compared", "user-predicate-reversible-accepted", "user-predicate-reversible-with-directed-term:refused", "solved-model-edges", "other-edges-unchanged-checked", "checked-exponentiator-raised", "Q-checked", "P-checked", "P(0)=I-checked", "semigroup-checked", "stationarity-checked", "bin-rates-checked", "adversarial-Q", "backend:Fast", "backend:Checked", "backend:Pade", "backend:Taylor", "backend:SemiSymmetric", "setting:either", "setting:pade"]
+    need = ["GS:accepted", "GS:refused", "partitioned-rate-checked", "free-rate-distribution-checked", "unaligned-route-checked", "uncalibrated-table:user-names", "uncalibrated-table:default-names:11+bins", "user-predicate-models-checked", "user-predicate-orderings-compared", "user-predicate-reversible-accepted", "user-predicate-reversible-with-directed-term:refused", "solved-model-edges", "other-edges-unchanged-checked", "checked-exponentiator-raised", "Q-checked", "P-checked", "P(0)=I-checked", "semigroup-checked", "stationarity-checked", "bin-rates-checked", "adversarial-Q", "backend:Fast", "backend:Checked", "backend:Pade", "backend:Taylor", "backend:SemiSymmetric", "setting:either", "setting:pade"]
     return [n for n in need if not counters.get(n)]
